@@ -12,6 +12,7 @@ from ..unpack import (
     is_multi_sec,
 )
 from ..config import (
+    Config,
     MasterConfig,
 )
 from ..tract import Tract
@@ -347,7 +348,16 @@ class PLSSParser:
             handed_down_config = ''
         if parse_qq:
             handed_down_config = f"{handed_down_config},parse_qq"
-        self.handed_down_config = handed_down_config
+        # The tract-level settings in force for this parse (which may
+        # have been passed as keyword arguments) override whatever was
+        # in the handed-down config.
+        handed_down_config = Config(handed_down_config)
+        handed_down_config.clean_qq = clean_qq
+        handed_down_config.qq_depth_min = qq_depth_min
+        handed_down_config.qq_depth_max = qq_depth_max
+        handed_down_config.qq_depth = qq_depth
+        handed_down_config.break_halves = break_halves
+        self.handed_down_config = handed_down_config.decompile_to_text()
 
         # These impact the parse of this PLSS description.
         self.mandate_layout = not segment and layout is not None
